@@ -2,7 +2,7 @@
 from __future__ import annotations
 
 import algebra as A
-from reduce_check import ReduceBase
+from reduce_check import ReduceBase, _noids
 
 
 class Check(ReduceBase):
@@ -32,6 +32,11 @@ class Check(ReduceBase):
     def oracle(self, case, obs):
         if 'build_error' in obs or 'err' in obs:
             return None  # C01 reports exceptions of reduce()
+        pat = case.get('pattern') or ''
+        if case.get('kind') == 'pattern' and case.get('ctx') == 'comp' and pat and not pat.startswith('near-') and '+' not in pat:
+            # a documented pattern standing alone must be rewritten (the `near-*` entries are the deliberate non-patterns)
+            if obs.get('skel') is not None and _noids(obs.get('skel')) == _noids(obs.get('before')):
+                return f'the documented pattern {pat} ({case["ops"]}) was not rewritten by reduce()'
         nf = obs.get('normal_form')
         if nf is None:
             return None
